@@ -56,13 +56,40 @@ def _apply(root: str, var) -> str | None:
     return None
 
 
+def seed_variants(prop: str) -> list[tuple]:
+    """Stored seeded changes (/verif/seeded/<id>/patch.diff, written by independent sub-agents and confirmed by hand)
+    that this property's check is on record as catching: (id, prop, rule, "@patch", path)."""
+    out = []
+    root = os.path.join(VERIF, "seeded")
+    for d in sorted(os.listdir(root)) if os.path.isdir(root) else []:
+        mp, pp = os.path.join(root, d, "meta.json"), os.path.join(root, d, "patch.diff")
+        if not (os.path.exists(mp) and os.path.exists(pp)):
+            continue
+        try:
+            meta = json.load(open(mp))
+        except ValueError:
+            continue
+        hits = (meta.get("caught_by") or {}).get(prop)
+        if not meta.get("confirmed") or not hits:
+            continue
+        out.append((f"seed-{d}", prop, hits[0].split()[0], "@patch", pp))
+    return out
+
+
+def _apply_patch(root: str, var) -> str | None:
+    p = subprocess.run(["patch", "-p1", "-s", "-f", "-d", root, "-i", var[4]], capture_output=True, text=True)
+    if p.returncode != 0:
+        return "seed patch no longer applies: " + (p.stdout + p.stderr).strip().splitlines()[0][:100] if (p.stdout + p.stderr).strip() else "seed patch no longer applies"
+    return None
+
+
 def _run_one(var, scratch_root: str) -> dict:
     vid, prop, rule = var[0], var[1], var[2]
     d = tempfile.mkdtemp(prefix=f"tlsa-audit-{vid}-", dir=scratch_root)
     t0 = time.time()
     try:
         _copy_tree(d)
-        err = _apply(d, var)
+        err = _apply_patch(d, var) if var[3] == "@patch" else _apply(d, var)
         if err:
             return dict(id=vid, prop=prop, rule=rule, status="skipped", detail=err)
         ev = os.path.join(d, "_evidence")
@@ -97,7 +124,7 @@ def run_variants(variants, jobs: int = 16) -> list[dict]:
 
 
 def audit_property(prop: str) -> int:
-    vs = [v for v in V if v[1] == prop]
+    vs = [v for v in V if v[1] == prop] + seed_variants(prop)
     if not vs:
         print(f"[{prop}] audit: no variants defined")
         return 0
@@ -113,7 +140,7 @@ def audit_property(prop: str) -> int:
     try:
         ev = json.load(open(evp))
         ev["coverage"]["audit"] = dict(variants=len(vs), detected=len(det), skipped=len(skipped), missed=[r["id"] for r in missed], wall_s=round(time.time() - t0, 1), results=res,
-                                       rule="each variant is one textual edit of a scratch copy of /repo that breaks one rule instance; the check must exit 1 naming that rule")
+                                       rule="each variant is one textual edit (or one stored seeded patch, id seed-*) applied to a scratch copy of /repo that breaks one rule instance; the check must exit 1 naming that rule")
         ev["wall_s"] = round(ev.get("wall_s", 0) + time.time() - t0, 3)
         json.dump(ev, open(evp, "w"), indent=1, default=str)
     except Exception as e:  # noqa: BLE001
